@@ -250,9 +250,13 @@ def eval_session(case, tapes, out):
                 if not (r['exc'].startswith('USBError') or r['exc'] in USB_EXC):
                     probs.append(O.P('crash', 'libusb %s injected into %s: %s raised %s (%s)' % (err, name, r['op'], r['exc'], r.get('msg'))))
         # recovery on the same object: close() and connect() must work again (the handle of the broken session must have been released)
-        for r in (getattr(run, 'post', []) if name in ('bulkRead', 'bulkWrite') else []):
+        for r in (getattr(run, 'post', []) if name in ('bulkRead', 'bulkWrite', 'claim', 'open') else []):
             if not r['ok']:
                 probs.append(O.P('recovery-failed', 'after libusb %s in %s: %s raised %s (%s)' % (err, name, r['op'], r['exc'], r.get('msg'))))
+                break
+        for r in getattr(run, 'post', []):
+            if not r['ok'] and r['exc'] == 'ClosedHandleUse':
+                probs.append(O.P('crash', 'after libusb %s in %s: %s used a libusb handle that had already been closed (%s)' % (err, name, r['op'], r.get('msg'))))
                 break
         if getattr(run, 'post', None):
             pr['c20_recovery'] = 1
